@@ -40,6 +40,9 @@ var optNamePool = [][]string{
 
 var argNamePool = []string{"X", "Y", "ZED_1"}
 
+// argNameVariants: now and then an argument is called like the keyword plus something (still a plain argument name)
+var argNameVariants = [][]string{{"X", "Y", "ZED_1"}, {"X", "Y", "ZED_1"}, {"X", "Y", "ZED_1"}, {"OPTIONS_1", "Y", "OPTIONS2"}, {"X", "OPTIONSX", "Z9"}}
+
 // GenDecls draws a declaration set: 1-4 flags, 0-3 valued options, 1-3 names each, 1-3 arguments.
 func GenDecls(t *rapid.T, cfg GenCfg) *Decls {
 	d := &Decls{}
@@ -66,9 +69,23 @@ func GenDecls(t *rapid.T, cfg GenCfg) *Decls {
 	for i := 0; i < nv; i++ {
 		mk(optNamePool[4+i], false)
 	}
+	if chance(t, 1, 10, "nonasciiopt") {
+		// an option whose only names are not ASCII: "é" is ONE character but two bytes, the library's rule (byte length > 1)
+		// makes it the long option --é; the spec lexer cannot spell it, OPTIONS reaches it
+		names := rapid.SampledFrom([][]string{{"--é"}, {"--ñandú"}, {"--é", "--ünï"}}).Draw(t, "nonasciinames")
+		d.Opts = append(d.Opts, OptDecl{Names: names, Bool: chance(t, 1, 2, "nonasciiflag"), OnlyViaOptions: true})
+	}
+	if cfg.Env {
+		for i := range d.Opts {
+			if d.Opts[i].Env && chance(t, 1, 5, "blankenv") {
+				d.Opts[i].EnvVal = rapid.SampledFrom([]string{" ", "\t", "  "}).Draw(t, "blankenvval")
+			}
+		}
+	}
 	na := rapid.IntRange(1, 3).Draw(t, "nargs")
+	argNames := rapid.SampledFrom(argNameVariants).Draw(t, "argnames")
 	for i := 0; i < na; i++ {
-		d.Args = append(d.Args, ArgDecl{Name: argNamePool[i]})
+		d.Args = append(d.Args, ArgDecl{Name: argNames[i]})
 	}
 	return d
 }
@@ -90,7 +107,11 @@ func (g *specGen) atom() *Node {
 		k := intn(t, 20, "atom")
 		switch {
 		case k < 7 && !g.ddSeen:
-			return &Node{Kind: KOpt, Opt: intn(t, len(g.d.Opts), "opt"), UseName: intn(t, 3, "use"),
+			o := intn(t, len(g.d.Opts), "opt")
+			if g.d.Opts[o].OnlyViaOptions {
+				continue
+			}
+			return &Node{Kind: KOpt, Opt: o, UseName: intn(t, 3, "use"),
 				Annotated: rapid.SampledFrom(annotations).Draw(t, "ann")}
 		case k < 10 && !g.ddSeen && !g.cfg.NoGroup:
 			if chance(t, 1, 2, "allopts") {
@@ -171,7 +192,7 @@ type Item struct {
 	Pos string `json:"pos,omitempty"`
 }
 
-var optValues = []string{"v", "w", "7", "x", "a", "true", "v=w", "é", " v ", "w\t"}
+var optValues = []string{"v", "w", "7", "x", "a", "true", "v=w", "é", " v ", "w\t", "%Y-%m", "100%", "%s"}
 var positionals = []string{"x", "y", "zz", "1", "-"}
 var exoticPositionals = []string{"", "a=b", "é", " ", "x y", " x", "y "}
 
